@@ -87,6 +87,40 @@ reg(
     "differential property testing (Hypothesis): model Jacobian vs multi-step finite-difference stencil of its own prediction",
 )
 
+reg(
+    "C10",
+    "Random expression trees over scalar/vector polynomial, linear and quadratic functions with numbers and arrays (+ - * / neg "
+    "offset) and every helper (restriction, linear composition, concatenation, MDOLinearFunction normalize/restrict/offset/neg, "
+    "Taylor 1st/2nd order, convex linearisation, six aggregation functions, ConstraintAggregation discipline) are evaluated and "
+    "differentiated against the harness' own forward-mode arithmetic (1e-11 relative), symbolically with sympy where the code is "
+    "dtype-agnostic, with operand arrays checked unmodified and the KS/IKS/max bound sides asserted. Sampling of trees/points.",
+    "Trusted: numpy, sympy, the harness dual-number evaluator. Denominators are bounded away from 0; numbers/arrays are second "
+    "operands (no reflected operators exist). One open finding (ConvexLinearApprox reciprocal term, encoded by an existing test).",
+    "property-based differential testing (Hypothesis expression trees) against dual-number and sympy references",
+)
+reg(
+    "C15",
+    "A drawn list of up to 34 edit/query operations drives a JSONGrammar, a SimpleGrammar (and a PydanticGrammar for shared "
+    "operations) and plain Python models in lock-step in two slots; after every operation names/required names/defaults equal the "
+    "model, validate() equals the model's verdict and, for JSON grammars, the verdict of the jsonschema reference validator on "
+    "json.loads(to_json()); queries must not change the grammar; copies and pickles are probed for independence; the 25 JSON "
+    "grammar files shipped with gemseo are validated against data generated from their schemas. Sampling, bounded histories.",
+    "Trusted: jsonschema 4.26 (draft chosen by validator_for), the harness models. The model is tri-state for merged types "
+    "(genson narrows them), undetermined verdicts are not asserted; namespaces maps are not part of the statement.",
+    "model-based stateful property testing (Hypothesis operation lists) + differential testing against jsonschema",
+)
+reg(
+    "C16",
+    "FirstOrderFD, CenteredDifferences and ComplexStep are run on polynomials and sin*exp functions with harness-computed derivative "
+    "bounds: shape, per-entry error within the analytic truncation + rounding bound for the step used, every point at which the "
+    "function is called compared with the upper bounds of the design space, parallel == serial, for component subsets, per-component "
+    "steps and points on/near bounds; discipline-level approximation modes and check_jacobian (names, indices, wrong entry inside/"
+    "outside the checked region) inherit the same oracles. Sampling of functions/points/steps.",
+    "Trusted: numpy, the analytic bounds M2 h/2 + r/h, M3 h^2/6 + r/h, M3 d^2/6 with r = 64 eps (F + M1 R). Steps in a numerically "
+    "safe range; compute_optimal_step is not checked.",
+    "property-based testing (Hypothesis) against analytic error bounds and call-point logging",
+)
+
 NOT_YET: dict[str, str] = {}
 
 
